@@ -294,7 +294,7 @@ int main(int argc, char** argv) {
   } else {
     for (size_t ti = 0; ti < c.types.size(); ti++) units.push_back(fmt("type=%zu", ti));
   }
-  long per_unit = c.args.geti("n", is07 ? (c.thorough ? 600 : 150) : (c.thorough ? 20000 : 3000));
+  long per_unit = c.args.geti("n", is07 ? (c.thorough ? 600 : 400) : (c.thorough ? 20000 : 8000));
   size_t ui = 0;
   for (auto& unit : units) {
     if ((int)(ui++ % (size_t)c.args.nshards) != c.args.shard) continue;
